@@ -221,6 +221,30 @@ def call(est, m, Xt):
         return ["raises", type(e).__name__]
 
 
+def noncontiguous_arrays(obj, path="", depth=0, seen=None, out=None):
+    """paths of ndarray values (inside attributes, lists, tuples, dicts, nested estimators) that are strided views:
+    neither C- nor F-contiguous.  np.save / pickle / copy.deepcopy all turn them into contiguous arrays."""
+    seen = set() if seen is None else seen
+    out = [] if out is None else out
+    if id(obj) in seen or depth > 6:
+        return out
+    seen.add(id(obj))
+    if isinstance(obj, np.ndarray):
+        if obj.dtype != object and obj.ndim > 1 and not obj.flags.c_contiguous and not obj.flags.f_contiguous:
+            out.append(path)
+        return out
+    if isinstance(obj, dict):
+        for k, v in obj.items():
+            noncontiguous_arrays(v, f"{path}[{k!r}]", depth + 1, seen, out)
+    elif isinstance(obj, (list, tuple)):
+        for i, v in enumerate(obj):
+            noncontiguous_arrays(v, f"{path}[{i}]", depth + 1, seen, out)
+    elif hasattr(obj, "__dict__") and not isinstance(obj, type) and type(obj).__module__.split(".")[0] in ("sklearn", "values"):
+        for k, v in vars(obj).items():
+            noncontiguous_arrays(v, f"{path}.{k}", depth + 1, seen, out)
+    return out
+
+
 def state_items(est):
     st = est.__getstate__() if hasattr(est, "__getstate__") else dict(vars(est))
     return st if isinstance(st, dict) else {"<state>": st}
@@ -338,7 +362,7 @@ def one_job(sio, job):
     # array attributes: memory order kept? (abs records C/F)
     rec["f_ordered_attrs"] = sorted(k for k, v in s0.items() if isinstance(v, np.ndarray) and v.ndim > 1 and v.flags.f_contiguous and not v.flags.c_contiguous)
     # ---- methods, bitwise
-    meth = {}
+    meth, causes = {}, {}
     if Xt is not None:
         for m in METHODS:
             if not hasattr(est, m):
@@ -351,7 +375,14 @@ def one_job(sio, job):
                 meth[m] = "same" if a1[0] == "ok" else "both-raise:" + a1[1]
             else:
                 meth[m] = "DIFF:" + (str(first_diff(a1, b1))[:200])
+                # is memory layout the only difference?  copy.deepcopy makes strided views contiguous, exactly like np.save
+                nc = noncontiguous_arrays(est)
+                if nc:
+                    import copy
+                    if call(copy.deepcopy(est), m, Xt) == b1:
+                        causes[m] = nc[:4]
     rec["methods"] = meth
+    rec["layout_only"] = causes
     return rec
 
 
